@@ -303,3 +303,45 @@ func verifC17_MQTTCap() {
 		verifCover("superseded-connection-torn-down")
 	}
 }
+
+// ---- persistence of session changes ----------------------------------------------------------
+
+var vEncodeSeq int
+
+// vSessionEncode replaces Session.encode (YAML): the text is the number of subscriptions
+func vSessionEncode(s *Session) (string, error) {
+	return []string{"0", "1", "2", "3"}[len(s.info.Topics)], nil
+}
+
+// verifC16_SessionPersist: the REAL Session.store and SessionManager.doStore. A session change
+// that was acknowledged (SUBACK sent) before the connection ended must reach the store, and
+// the store must end with the LATEST state of the session - so that a reconnect with
+// cleanSession=false on a fresh broker (restart, another member) gets the subscriptions back.
+func verifC16_SessionPersist() {
+	b := vC16Broker(0)
+	sm := &SessionManager{broker: b, store: vStore, storeCh: make(chan SessionStore), done: make(chan struct{})}
+	verifInitMaps(sm)
+	b.sessMgr = sm
+	go sm.doStore()
+	connect := packets.NewControlPacket(packets.Connect).(*packets.ConnectPacket)
+	connect.ClientIdentifier, connect.CleanSession = "c", false
+	s := &Session{}
+	s.init(sm, b, connect)
+	changes := verifBound("changes")
+	for i := 0; i < changes; i++ {
+		s.Lock()
+		s.info.Topics[[]string{"t/1", "t/2", "t/3"}[i]] = 1
+		s.Unlock()
+		s.store() // what subscribe does after updating the session
+	}
+	if verifBool("connectionEndsRightAway") {
+		s.close()
+		verifCover("connection-ended-with-writes-in-flight")
+	}
+	verifQuiesce()
+	got, ok := vStore.kv[sessionStoreKey("c")]
+	verifAssert(ok, "acknowledged-session-change-reaches-the-store")
+	if ok {
+		verifAssert(got == []string{"0", "1", "2", "3"}[changes], "store-ends-with-the-latest-session-state")
+	}
+}
